@@ -53,7 +53,13 @@ def run(ctx):
         s = f.get("signer")
         okl = is_call(s, "MsgSigner::from_seed") and s[2][0] == ("param", ln.path, 1)
         sv = f.get("srv_value")
-        okl = okl and is_call(sv, "LongTermKey::calc_srv_value") and is_call(sv[2][0], "MsgSigner::public_key_bytes")
+        from lib import signer_pubkey
+        okl = okl and is_call(sv, "LongTermKey::calc_srv_value") and signer_pubkey(W, sv[2][0]) == s
+    pkb = ctx.fn(SIGNER + "::public_key_bytes")
+    from lib import signer_pubkey
+    rpk = W.ev(pkb.path).ret()
+    ctx.check("purity", "public_key_bytes/is-the-verifying-key-of-this-signer", signer_pubkey(W, rpk) == ("param", pkb.path, 1),
+              "public_key_bytes = self.signing_key.verifying_key() as bytes", "public_key_bytes returns %s" % fmt(rpk), ctx.loc(pkb))
     ctx.check("purity", "LongTermKey::new/signer-and-srv-from-seed", okl, "signer = from_seed(seed); srv_value = calc_srv_value(signer.public_key_bytes())",
               "LongTermKey::new builds %s" % ({k: fmt(v) for k, v in lcs[0][3].items()} if lcs else None), ctx.loc(ln))
 
@@ -144,7 +150,7 @@ def run(ctx):
         d = {f[0]: f[1] for f in fields}
         mi = W.obj_init(d.get("MINT")) if d.get("MINT", ("x",))[0] == "obj" else d.get("MINT")
         ma = W.obj_init(d.get("MAXT")) if d.get("MAXT", ("x",))[0] == "obj" else d.get("MAXT")
-        okw = okb and mi == ("repeat", ("int", 0), 8) and ma == ("repeat", ("int", 255), 8) and is_call(d.get("PUBK"), "MsgSigner::public_key_bytes")
+        okw = okb and mi == ("repeat", ("int", 0), 8) and ma == ("repeat", ("int", 255), 8) and signer_pubkey(W, d.get("PUBK")) is not None
         det = "PUBK=%s MINT=%s MAXT=%s" % (fmt(d.get("PUBK")), fmt(mi), fmt(ma))
     ctx.check("certificate", "delegation-window-contains-every-midpoint", okw, "DELE = {PUBK: online public key, MINT: 0, MAXT: 2^64-1}",
               "delegation is %s" % det, ctx.loc(md))
